@@ -130,8 +130,12 @@ def judge(case, o):
         elif not both_fail:
             v("half-open", "no common value in dimension %s: client ok=%s server ok=%s" % (why, c["ok"], s["ok"]), dimension=why)
         elif not alert_seen(o):
-            v("failed-without-alert", "no common value in dimension %s: both failed but no alert was sent (c: %s / s: %s)" %
-              (why, c.get("err"), s.get("err")), dimension=why)
+            cause = "none-sent"
+            if exp["cid"]["negotiated"] and ver == "12" and any(a["dir"] == "out" for a in o.get("alerts") or []):
+                # Conn.notify was called, but no plaintext alert record left and the peer never decoded one
+                cause = "alert-wrapped-as-cid-record-in-epoch-0"
+            v("failed-without-alert", "no common value in dimension %s: both failed but no (readable) alert reached the wire "
+              "(c: %s / s: %s)" % (why, c.get("err"), s.get("err")), dimension=why, cause=cause)
     elif exp["ok"] == "must" and not both_ok:
         cause = "unknown"
         csigs = set(case["c"]["sigs"])
@@ -193,6 +197,17 @@ def facts_of(case, o, kind, detail, extra):
                                                            "grpWire", "shSuite")}}
     f.update(extra)
     f.setdefault("dimension", kind)
+    # class of the finding (the predicate known_findings.jsonl entries match on)
+    serr = (o.get("s") or {}).get("err") or ""
+    if f["ver"] == "13" and f["dimension"] == "alpn" and kind in ("alpn", "completed-without-common-value"):
+        f["finding"] = "13-alpn-not-negotiated"
+    elif f["ver"] == "13" and f["serverKey"] == "rsa" and kind in ("compatible-but-failed", "failed-without-alert") and \
+            "invalid signature/hash algorithm" in serr:
+        f["finding"] = "13-rsa-certificate-cannot-sign"
+    elif kind == "failed-without-alert" and f.get("cause") == "alert-wrapped-as-cid-record-in-epoch-0":
+        f["finding"] = "12-alert-cid-wrapped-before-keys"
+    else:
+        f["finding"] = kind
     return f
 
 
@@ -224,7 +239,7 @@ def evaluate(chk, binary, cases, label):
             # every finding of this case is a listed known finding: no need to re-run it with a larger budget
             for x in viol[:2]:
                 f = facts_of(case, o, *x)
-                key = "%s/v%s/%s" % (x[0], f["ver"], f.get("dimension") or "")
+                key = "%s/v%s/%s" % (x[0], f["ver"], f.get("cause") or f.get("dimension") or "")
                 classes = chk.parts.setdefault("violation_classes", {})
                 classes[key] = classes.get(key, 0) + 1
                 chk.violation(f)
